@@ -11,7 +11,7 @@ _HIST_RULE = (
 )
 
 _KERNEL_STREAM = dict(
-    name="kernels", quick=3000, thorough=60000, check_fn="check_kernel", case_type="kcase", coq_shard=200,
+    name="kernels", quick=1600, thorough=60000, check_fn="check_kernel", case_type="kcase", coq_shard=200,
     codes={2: "coinswap.kernel.rule", 3: "coinswap.kernel.not-maximal", 4: "coinswap.kernel.not-near-minimal"})
 
 PROPS["C01"] = dict(
@@ -20,7 +20,7 @@ PROPS["C01"] = dict(
     coq_targets=["Coinswap/Check.vo"],
     check_module="Coinswap.Check",
     check_fn="check_case_C01",
-    streams=[dict(name="c01", quick=320, thorough=8000, coq_shard=20), _KERNEL_STREAM],
+    streams=[dict(name="c01", quick=200, thorough=8000, coq_shard=20), _KERNEL_STREAM],
     rule=_HIST_RULE + "non-trivial = at least one successful swap and one successful liquidity change on a pool with "
          "L > 0, and a swap division left a non-zero remainder; kernels stream: GetInputPrice/GetOutputPrice as pure "
          "functions on (amount, x, y, fee) with 128-bit operands, residues 0 / small / just below the divisor, the "
@@ -32,7 +32,9 @@ PROPS["C01"] = dict(
              3: "an exact-input leg paid out less than the rule allows",
              4: "an exact-output leg charged more than one unit above the minimum the rule allows"},
     trusted_base=["cosmossdk.io/math Int/LegacyDec restated in Base/Dec.v; SDK bank modelled as a ledger"],
-    assumptions=["senders of messages are not pool escrow addresses (nobody holds their keys)"],
+    assumptions=["senders of messages are not pool escrow addresses (nobody holds their keys)",
+                 "fee parameters in range: 0 <= fee < 1, 0 <= unilateral fee <= 1 (Inv); parameters constant along a history "
+                 "(MsgUpdateParams not modelled)"],
 )
 
 PROPS["C02"] = dict(
@@ -41,7 +43,7 @@ PROPS["C02"] = dict(
     coq_targets=["Coinswap/Check.vo"],
     check_module="Coinswap.Check",
     check_fn="check_case_C02",
-    streams=[dict(name="c02", quick=320, thorough=8000, coq_shard=20)],
+    streams=[dict(name="c02", quick=240, thorough=8000, coq_shard=20)],
     rule=_HIST_RULE + "observed after every message: balances of 4 actors, coinswap module account, fee collector, "
          "3 pool escrow addresses and the rest-of-the-world bucket in 4 bank denoms and 3 LPT denoms, all supplies, "
          "registry, responses; non-trivial = a successful message with recipient != sender, or a double hop, or a "
@@ -58,5 +60,7 @@ PROPS["C02"] = dict(
              6: "a total supply changed other than by LPT mint/burn or the burned part of the creation fee",
              7: "the pool registry changed unexpectedly", 8: "a plain transfer or block boundary changed something else"},
     trusted_base=["cosmossdk.io/math Int/LegacyDec restated in Base/Dec.v; SDK bank modelled as a ledger"],
-    assumptions=["senders of messages are not pool escrow addresses (nobody holds their keys)"],
+    assumptions=["senders of messages are not pool escrow addresses (nobody holds their keys)",
+                 "check_predicate_holds_on_model_step / lpt_mint_burn_only_against_reserves: signer is not a module account, "
+                 "creation fee not denominated in an LPT denom"],
 )
